@@ -141,6 +141,14 @@ FAIL_REPLIES_PERM = [('550', '5.1.1 rejected'), ('550', '5.7.1 rejected'), ('554
 FAIL_REPLIES_TEMP = [('450', '4.2.0 try later'), ('450', '4.2.1 try later'), ('451', '4.2.1 try later'), ('450', '4.2.0 sp\u00e4ter')]
 NREP = 4
 
+
+def _built(code, text, pos):
+    """The same reply built in two ways: a Reply renders the class of its enhanced status code from the reply code, so
+    Reply('550', '2.1.1 x') and Reply('550', '5.1.1 x') are one and the same reply (equal, same bytes)."""
+    if pos % 2:
+        text = '2' + text[1:]
+    return Reply(code, text)
+
 # slot holders (entry function > blocking call inside slimta.queue) of the bounded-pool deadlock recorded as a known finding
 KNOWN_JAM_HOLDERS = {'_dequeue>_pool_spawn', '_retry_later>_pool_spawn', '_wait_store'}
 
@@ -646,15 +654,15 @@ class Engine(object):
         if shape == 'raise_x':
             raise RuntimeError('boom')
         vals = []
-        for r, kind, k in results:
+        for pos, (r, kind, k) in enumerate(results):
             if kind == 'ok':
                 vals.append(None if k % 2 else Reply('250', '2.0.0 ok'))
             elif kind == 'perm':
                 c, t = FAIL_REPLIES_PERM[k % NREP]
-                vals.append(PermanentRelayError('perm', Reply(c, t)))
+                vals.append(PermanentRelayError('perm', _built(c, t, pos)))
             else:
                 c, t = FAIL_REPLIES_TEMP[k % NREP]
-                vals.append(TransientRelayError('temp', Reply(c, t)))
+                vals.append(TransientRelayError('temp', _built(c, t, pos)))
         if shape == 'seq':
             return vals
         return dict(zip(rcpts, vals))
